@@ -19,4 +19,6 @@ for h in _w:
         HARNESSES.append(g)
 # descriptor isolation: a descriptor number the library already closed is never closed again (it may belong to another handle by then)
 HARNESSES += [h for h in _load("C14").HARNESSES if h.name == "fileio.ownership"]
+HARNESSES += _load("blk_common").ms_harnesses(("SEL_INIT",))
+
 META = {"assumptions": ["I_open", "E-posix"], "outside": ["more than two handles (pairwise + induction)", "threads"]}
